@@ -409,3 +409,67 @@ def rule_future_flags(check, rule):
                             witness="f('a: int', future_features=('annotations', 'annotations'))")
         else:
             check.inconclusive(rule, site_of(fi, u), 'combination of compiler flags not recognised (%s)' % how, key=key)
+
+
+def rule_func_from_sig(check, rule):
+    """C20.R5: func_from_sig splits str(sig) at ' -> ' and hands the two pieces to f(<parameter text>, <return text>).
+    Protocol of str.(r)partition: (head, sep, tail).  With a separator the parameter list is the head and the return
+    annotation the tail; without one rpartition puts the whole string in the *tail* (partition: in the head).  Every path
+    must pass the piece that holds the parenthesised parameter list (its [1:-1]) as the text and, when there is a
+    separator, the tail as the return annotation."""
+    repo = check.repo
+    fi = repo.func(SUP + ':func_from_sig', required=False)
+    if fi is None:
+        raise Inconclusive('support.func_from_sig vanished')
+    check.analysed(fi)
+    it = Interp(repo, Policy(split_ifexp=True))
+    paths = it.run(fi)
+    check.absorb(it)
+    n = 0
+    seen = set()
+    for p in paths:
+        if p.status != 'return':
+            continue
+        v = p.value
+        node = [e for e in p.effects if e.kind == 'return'][-1].node
+        st = site_of(fi, node)
+        if not (v[0] == 'C' and str(v[1]).endswith(':f') and v[2]):
+            check.inconclusive(rule, st, 'func_from_sig does not return f(...): %s' % show(v)[:80], key='func_from_sig|shape')
+            continue
+        text = v[2][0]
+        ret = v[2][1] if len(v[2]) > 1 else dict(v[3]).get('ret')
+        parts = [s_ for s_ in subterms(text) if s_[0] == 'S' and s_[1][0] == 'M' and s_[1][2] in ('rpartition', 'partition') and s_[2][0] == 'K']
+        if not parts:
+            check.inconclusive(rule, st, 'parameter text %s is not a piece of str(sig).(r)partition(...)' % show(text)[:80], key='func_from_sig|text')
+            continue
+        part = parts[0][1]
+        meth = part[2]
+        tidx = parts[0][2][1]
+        sep = None
+        for a, pol in p.lits:
+            if a[0] == 'truthy' and a[1] == ('S', part, K(1)):
+                sep = pol
+        n += 1
+        key = 'func_from_sig|%s|sep=%s' % (meth, sep)
+        if key in seen:
+            continue
+        seen.add(key)
+        ridx = ret[2][1] if ret is not None and ret[0] == 'S' and ret[1] == part and ret[2][0] == 'K' else None
+        msgs = []
+        for sv in ([sep] if sep is not None else [True, False]):
+            want_text = 0 if sv else (2 if meth == 'rpartition' else 0)
+            if tidx != want_text:
+                msgs.append('%s a separator the parameter list is piece %d of %s(), but piece %d is used as the signature text'
+                            % ('with' if sv else 'without', want_text, meth, tidx))
+            if sv and ridx != 2:
+                msgs.append('with a separator the return annotation is piece 2 (the tail) of %s(), but %s is passed'
+                            % (meth, 'piece %d' % ridx if ridx is not None else show(ret)[:30] if ret is not None else 'nothing'))
+            if not sv and ridx is not None:
+                msgs.append('without a separator there is no return annotation, but piece %d of %s() is passed as one' % (ridx, meth))
+        if msgs:
+            for m_ in msgs[:2]:
+                check.violation(rule, st, 'func_from_sig: %s' % m_, key=key + '|' + m_[:30], guards=' & '.join(show_lit(l) for l in p.lits)[:120],
+                                witness="func_from_sig(inspect.signature(lambda a, b=2: None).replace(return_annotation=int)) -> SyntaxError")
+        else:
+            check.holds(rule, st, 'func_from_sig hands f() the parameter list and the return annotation from the right pieces of %s()' % meth, key=key)
+    check.floor(rule, 'returning paths of func_from_sig', n, 1)
